@@ -9,4 +9,4 @@ Set Extraction KeepSingleton.
 Extraction "models_mem2.ml"
   start live fail_at fresh mkA
   wstep solve free_ring free_prms mkprms mkW w_prm w_new handle
-  mkCfg mkAdd mkPr mkVn.
+  mkCfg mkAdd mkPr mkVn solve_init_requests cal_requests.
